@@ -51,7 +51,7 @@ Definition wild_label : N := 0.
 Definition T_NS : N := 2.   Definition T_CNAME : N := 5.  Definition T_SOA : N := 6.
 Definition T_DNAME : N := 39. Definition T_DS : N := 43.  Definition T_RRSIG : N := 46.
 Definition T_NSEC : N := 47. Definition T_DNSKEY : N := 48. Definition T_NSEC3 : N := 50.
-Definition RC_NXDOMAIN : N := 3.
+Definition RC_NXDOMAIN : N := 3. Definition RC_SERVFAIL : N := 2.
 
 (* ------------------------------------------------------- algorithms (tie) *)
 (* the supported DS digest types and DNSKEY algorithms ARE the translated Go functions
@@ -531,7 +531,9 @@ Definition find_ds (E : env) (signer : option name) (qname : name) (parentDS : l
       if name_eqb (r_owner d) s then Ok parentDS else
       match lookup_ds E s cd with
       | Er e => Er e
-      | Ok m => Ok (extract (m_ans m) (Some s) T_DS)
+      | Ok m =>
+          (* an answer the sub-query's own CD=0 validation did not authenticate supplies no trust link *)
+          Ok (if cd || m_ad m then extract (m_ans m) (Some s) T_DS else [])
       end
   end.
 
@@ -710,6 +712,10 @@ Definition dname_target (m : msg) : option name :=
 
 Inductive outcome := Fail (e : err) | Accept (m : msg).
 
+(* unsignedIsBogus: what an empty DS set for a candidate signer means *)
+Definition unsigned_is_bogus (E : env) (qname : name) (parentDS : list rr) (zone : option name) : bool :=
+  is_zone_secure E qname parentDS zone && negb (proven_insecure_delegation E zone qname parentDS).
+
 (* the per-signer retry loop shared by answer() and authority():
    Fail / settled-insecure / settled with (ok, signer) *)
 Inductive settle := SFail (e : err) | SInsecure | SVerified (ok : bool) (signer : name).
@@ -724,7 +730,7 @@ Fixpoint signer_loop (E : env) (qname : name) (resp : msg) (parentDS : list rr) 
           match find_ds E (Some s) qname parentDS false with
           | Er e => signer_loop E qname resp parentDS zone rest (Some e)
           | Ok [] =>
-              if is_zone_secure E qname parentDS zone
+              if unsigned_is_bogus E qname parentDS zone
               then signer_loop E qname resp parentDS zone rest (Some EDSRecords)
               else SInsecure
           | Ok ds =>
@@ -781,6 +787,9 @@ Definition validate_answer_core (E : env) (qname : name) (qtype : N) (cd : bool)
       | Ok r =>
           match tgt with
           | Some (LMsg t) =>
+              (* dnameLegFailure: a target leg that came back SERVFAIL fails the outer query (the handler then builds
+                 SERVFAIL + the leg's Extended DNS Error) instead of lending its rcode to a reply that keeps the DNAME *)
+              if m_rcode t =? RC_SERVFAIL then Fail (EDnameLeg RC_SERVFAIL) else
               let ad := if cd then m_ad r else m_ad r && m_ad t in
               let ans := m_ans r ++ m_ans t in
               if m_rcode t =? RC_NXDOMAIN then Accept (mk_msg (m_id r) (m_qname r) (m_qtype r) (m_rcode t) ans (m_ns t) ad)
@@ -846,7 +855,7 @@ Fixpoint deleg_loop (E : env) (q : name) (resp : msg) (orig : list rr) (zone : o
           match find_ds E (Some s) q orig false with
           | Er e => deleg_loop E q resp orig zone rest (Some e)
           | Ok [] =>
-              if is_zone_secure E q orig zone then deleg_loop E q resp orig zone rest (Some EDSRecords)
+              if unsigned_is_bogus E q orig zone then deleg_loop E q resp orig zone rest (Some EDSRecords)
               else DUnverified []
           | Ok ds =>
               if negb (has_supported_ds ds) then DUnverified ds else
